@@ -1284,6 +1284,7 @@ class AstEval:
         """Execute with statement."""
         hit_except = False
         ctx_list = []
+        entered = []
         val = None
         enter_attr = f"__{async_attr}enter__"
         exit_attr = f"__{async_attr}exit__"
@@ -1300,6 +1301,8 @@ class AstEval:
                 )
             for ctx in ctx_list:
                 value = await self.call_func(ctx["enter"], enter_attr, ctx["manager"])
+                # only managers whose enter succeeded get their exit called
+                entered.append(ctx)
                 if ctx["target"]:
                     await self.recurse_assign(ctx["target"], value)
             for arg1 in arg.body:
@@ -1308,15 +1311,15 @@ class AstEval:
                     break
         except Exception:
             hit_except = True
-            exit_ok = True
-            for ctx in reversed(ctx_list):
+            exit_ok = len(entered) > 0
+            for ctx in reversed(entered):
                 ret = await self.call_func(ctx["exit"], exit_attr, ctx["manager"], *sys.exc_info())
                 exit_ok = exit_ok and ret
             if not exit_ok:
                 raise
         finally:
             if not hit_except:
-                for ctx in reversed(ctx_list):
+                for ctx in reversed(entered):
                     await self.call_func(ctx["exit"], exit_attr, ctx["manager"], None, None, None)
         return val
 
